@@ -21,6 +21,7 @@ def processCase (text : String) : Array String :=
     | "tourx" => checkTour c
     | "pipe" => checkPipe c
     | "trans" => checkTrans c
+    | "transx" => checkTrans c
     | "sched" => checkSched c
     | "swaps" => checkSwaps c
     | "mcf" => checkMcf c
